@@ -31,12 +31,14 @@ func src(fset *token.FileSet, n ast.Node) string {
 type tx struct {
 	fset *token.FileSet
 	vars map[string]Var
+	used map[string]bool
 }
 
 // tr returns (lean term, kind).
 func (t *tx) tr(e ast.Expr) (string, string) {
 	s := src(t.fset, e)
 	if v, ok := t.vars[s]; ok {
+		t.used[v.Lean] = true
 		return v.Lean, v.Kind
 	}
 	switch x := e.(type) {
@@ -217,6 +219,25 @@ func (t *tx) tr(e ast.Expr) (string, string) {
 	panic(xerr{fmt.Sprintf("untranslatable expression %q", s)})
 }
 
+// translateUsed also reports which Lean leaves were used.
+func translateUsed(fset *token.FileSet, e ast.Expr, vars map[string]Var) (out string, kind string, used []string, err error) {
+	defer func() {
+		if r := recover(); r != nil {
+			if xe, ok := r.(xerr); ok {
+				err = xe
+				return
+			}
+			panic(r)
+		}
+	}()
+	t := &tx{fset: fset, vars: vars, used: map[string]bool{}}
+	out, kind = t.tr(e)
+	for k := range t.used {
+		used = append(used, k)
+	}
+	return
+}
+
 func translate(fset *token.FileSet, e ast.Expr, vars map[string]Var) (out string, kind string, err error) {
 	defer func() {
 		if r := recover(); r != nil {
@@ -227,7 +248,7 @@ func translate(fset *token.FileSet, e ast.Expr, vars map[string]Var) (out string
 			panic(r)
 		}
 	}()
-	t := &tx{fset: fset, vars: vars}
+	t := &tx{fset: fset, vars: vars, used: map[string]bool{}}
 	out, kind = t.tr(e)
 	return
 }
